@@ -603,6 +603,7 @@ func scenarios(thorough bool) []Scenario {
 		playerListScenario(1),
 		playerListScenario(2),
 		chunkScenario(2),
+		chatScenario(2),
 		nbtValueScenario(2),
 		connScenario(2, -1, true),
 		connScenario(2, 32, true),
